@@ -77,8 +77,8 @@ CLAIMS['C18'] = {
 }
 
 CLAIMS['C17'] = {
-    'text': 'utf8_append_utf32 is proved over all 2^32 arguments (loop-free): it reports success exactly for Unicode scalar values, then appends exactly the well-formed encoding (written from Unicode table 3-6, and shown to round-trip through the table 3-7 decoder specification of C10), and appends nothing on rejection; unhex_char maps the 22 permitted characters to their values with std::terminate unreachable; unhex_string (<= 8 digits) equals the base-16 Horner value; unescape_c maps each escaped character to its listed value; unescape_j on one or two consecutive escapes combines a high/low surrogate pair into the single code point, encodes every other escape individually and raises exactly for lone surrogates, reading its hex digits only inside the action input.',
-    'note': 'std::string += / append are assumed contracts over a ghost output buffer; unescape_j bounded to <= 2 escapes, unhex_string to <= 8 digits (complete unwinding); unescape_u / unescape_x are thin wrappers over the proved helpers and not separately under contract; the json_unescape example is not under contract.',
+    'text': 'utf8_append_utf32 is proved over all 2^32 arguments (loop-free): it reports success exactly for Unicode scalar values, then appends exactly the well-formed encoding (written from Unicode table 3-6, and shown to round-trip through the table 3-7 decoder specification of C10), and appends nothing on rejection; unhex_char maps the 22 permitted characters to their values with std::terminate unreachable; unhex_string (<= 8 digits) equals the base-16 Horner value; unescape_c maps each escaped character to its listed value; unescape_j on one, two or three consecutive escapes combines a high/low surrogate pair into the single code point, encodes every other escape individually and raises exactly for lone surrogates, reading its hex digits only inside the action input.',
+    'note': 'std::string += / append are assumed contracts over a ghost output buffer; unescape_j bounded to <= 3 escapes (pair followed by a further escape included), unhex_string to <= 8 digits (complete unwinding); unescape_u / unescape_x are thin wrappers over the proved helpers and not separately under contract; the json_unescape example is not under contract.',
     'design': 'DESIGN.md section 5 C17',
 }
 CLAIMS['C19'] = {
@@ -88,8 +88,8 @@ CLAIMS['C19'] = {
 }
 
 CLAIMS['C07'] = {
-    'text': 'buffer_input (Chunk 8, any capacity <= 512) as a data structure against an abstract stream view, with the reader an oracle that may return any number 0..length of the next stream bytes (every short-read pattern) and 0 only at end of stream: require(amount), size(amount) and empty() keep the shape invariant buffer <= current <= end <= buffer+capacity, never move the cursor, keep the window equal to the stream segment (ghost probe index), pass the reader only ranges inside the buffer, and raise nothing but std::overflow_error, and only when amount does not fit behind the cursor. The clause "at least amount bytes or end of stream afterwards" fails for short reads: open known finding D7.',
-    'note': 'discard() (memmove), cstring_reader, istream/cstream readers, mmap/stdio file inputs and argv/string inputs are not under contract (OS and libc behaviour: trusted); interface equivalence with memory_input is argued from the shared accessor contracts (paper step).',
+    'text': 'buffer_input (Chunk 8, any capacity <= 512) as a data structure against an abstract stream view, with the reader an oracle that may return any number 0..length of the next stream bytes (every short-read pattern) and 0 only at end of stream: require(amount), size(amount) and empty() keep the shape invariant buffer <= current <= end <= buffer+capacity, never move the cursor, keep the window equal to the stream segment (ghost probe index), pass the reader only ranges inside the buffer, and raise nothing but std::overflow_error, and only when amount does not fit behind the cursor. The clause "at least amount bytes or end of stream afterwards" fails for short reads: open known finding D7. discard() is proved to leave at most Chunk bytes before the cursor (so that maximum bytes of look-ahead always fit), to keep the number of unconsumed bytes and the position, and never to raise (memmove replaced by a havoc of the destination: which bytes end up where is the libc contract).',
+    'note': 'cstring_reader, istream/cstream readers, mmap/stdio file inputs and argv/string inputs are not under contract (OS and libc behaviour: trusted); interface equivalence with memory_input is argued from the shared accessor contracts (paper step).',
     'design': 'DESIGN.md section 5 C07',
 }
 
